@@ -143,7 +143,7 @@ Theorem C12_roundtrip_full_nonvacuous :
   full_conditions fx_app fx_state /\ saved fx_app fx_state = [0%nat; 1%nat; 2%nat] /\
   respects (must_precede fx_app) [0%nat; 2%nat; 1%nat] /\
   l_vals (the_line fx_app fx_state 2) = [VI 1; VI 5] /\
-  apply_all fx_app (map (the_line fx_app fx_state) [0%nat; 2%nat; 1%nat]) (initial fx_app) = (fx_state, true) /\
+  apply_all fx_app (map (the_line fx_app fx_state) [0%nat; 2%nat; 1%nat]) (initial fx_app) = (fx_loaded, true) /\
   snd (apply_all fx_app (map (the_line fx_app fx_state) [1%nat; 0%nat; 2%nat]) (initial fx_app)) = false.
 Proof. exact roundtrip_full_nonvacuous. Qed.
 
@@ -306,7 +306,7 @@ Theorem C12_pipeline_tree_nonvacuous :
   declared a apropos_fx /\
   (exists ps, pushes line apropos_fx 20 (msgs (save_lines a fx_state)) = Some ps /\ ranked ps) /\
   real_apply (fun _ l s => tree_apply_line no_hash_search one_id fx_tree l s) a
-             (map (the_line a fx_state) [0; 2; 1]%nat) (initial a) = (fx_state, true) /\
+             (map (the_line a fx_state) [0; 2; 1]%nat) (initial a) = (fx_loaded, true) /\
   tree_apply_line no_hash_search one_id fx_tree (the_line a fx_state 1) (initial a) = None.
 Proof. exact pipeline_tree_nonvacuous. Qed.
 
@@ -398,8 +398,8 @@ Proof. exact roundtrip_pipeline_tree_walk. Qed.
 
 Theorem C12_pipeline_tree_walk_nonvacuous :
   NoDup (map dir_addr (dirs_root fx_tree)) /\ NoDup (app_addresses (app_of_tree fx_tree)) /\
-  walk_tree fx_tree fx_state = [0; 1; 2]%nat /\
-  walk_tree fx_tree (initial (app_of_tree fx_tree)) = [0; 2]%nat.
+  walk_tree fx_tree fx_state = [0; 1; 2; 3]%nat /\
+  walk_tree fx_tree (initial (app_of_tree fx_tree)) = [0; 2; 3]%nat.
 Proof. exact pipeline_tree_walk_nonvacuous. Qed.
 
 (* ======================================================================== *)
